@@ -174,6 +174,9 @@ def sort_scalar(rng, fam):
         return rng.choice(['x', 'y', '', 'ab', 'b', 'abc', 'X'])
     if fam == 'dt':
         return {'$dt': rng.choice(['2020-01-01T00:00:00', '2021-06-30T00:00:00', '2020-01-01T12:00:00', '1999-12-31T00:00:00'])}
+    if fam == 'ns':       # stamps a few hundred nanoseconds apart, as pandas Timestamps and as numpy datetime64[ns] (both carry them), next to a plain datetime
+        return rng.choice([{'$pdts': '2020-01-01T00:00:00.000000200'}, {'$np': ['datetime64[ns]', '2020-01-01T00:00:00.000000500']}, {'$pdts': '2020-01-01T00:00:00.000000700'},
+                           {'$np': ['datetime64[ns]', '2020-01-01T00:00:00.000000100']}, {'$dt': '2020-01-01T00:00:00'}, {'$pdts': '2020-01-01T00:00:00.000001'}, {'$np': ['datetime64[ns]', '2020-01-01T00:00:00.000000200']}])
     if fam == 'none':
         return rng.choice([None, 1, 'x'])
     return rng.choice([None, 0, 1, 1.0, 2.5, {'$nan': rng.randrange(50)}, 'x', 'ab', '', {'$dt': '2020-01-01T00:00:00'}, {'$dt': '2021-06-30T00:00:00'}, -1, 3])
@@ -184,7 +187,7 @@ def gen_sort_case(rng):
     if rng.random() < 0.02:
         n = rng.choice([130, 260])
     width = rng.choice([0, 0, 1, 2, 3])
-    fams = [rng.choice(['num', 'nan', 'str', 'dt', 'none', 'mixed', 'mixed', 'inf']) for _ in range(max(width, 1))]
+    fams = [rng.choice(['num', 'nan', 'str', 'dt', 'none', 'mixed', 'mixed', 'inf', 'ns']) for _ in range(max(width, 1))]
     if width == 0:
         xs = [sort_scalar(rng, fams[0]) for _ in range(n)]
     else:
